@@ -432,7 +432,7 @@ package schema
 //@   ensures iff(result == nil, re_matches(p.Regexp, s))
 //@ func (*ystring).Validate
 //@   requires y != nil && patsWF(y)
-//@   ensures iff(result == nil, lenOK(y.len, len(s)) && forall(a, 0, len(y.pats), rowOK(y, a, len(y.pats[a]), s)))
+//@   ensures iff(result == nil, lenOK(y.len, runecount(s)) && forall(a, 0, len(y.pats), rowOK(y, a, len(y.pats[a]), s)))
 //@   loop 0 invariant forall(a, 0, loopidx+1, rowOK(y, a, len(y.pats[a]), s))
 //@   loop 1 invariant forall(a, 0, outer(loopidx)+1, rowOK(y, a, len(y.pats[a]), s)) && rowOK(y, outer(loopidx)+1, loopidx+1, s)
 //@ func (String).Pats
